@@ -111,6 +111,7 @@ pub fn generate(rng: &mut Rng, max_ops: usize) -> Workload {
     let mut descr = vec![format!("{ty}:[{}]", a.len())];
     let mut error: Option<u32> = None;
     let mut tag: i64 = 0;
+    let mut did_big = false;
     let line_of = |src: &str| src.matches('\n').count() as u32 + 1;
 
     for opi in 0..n_ops {
@@ -188,7 +189,42 @@ pub fn generate(rng: &mut Rng, max_ops: usize) -> Workload {
             }
             break;
         }
-        match rng.below(21) {
+        match rng.below(22) {
+            21 if !did_big => {
+                // growth far past the capacities the rest of the history reaches: one array
+                // pushed to several hundred elements, then a second one (built by pushes, by
+                // clone or by filled) past a hundred; both are probed, not printed
+                did_big = true;
+                let n1 = rng.range(130, 320) as i64;
+                let n2 = rng.range(65, 150) as i64;
+                src.push_str(&format!("let big{tag}: array<int> = []\nfor q in {n1} {{\n    big{tag}.push(q)\n}}\n"));
+                let (build, len2, first, last, sum): (String, i64, i64, i64, i64) = match rng.below(3) {
+                    0 => (
+                        format!("let two{tag}: array<int> = []\nfor q in {n2} {{\n    two{tag}.push(q * 2)\n}}\n"),
+                        n2,
+                        0,
+                        (n2 - 1) * 2,
+                        n2 * (n2 - 1),
+                    ),
+                    1 => (
+                        format!("let two{tag} = big{tag}.clone()\ntwo{tag}.push(5)\n"),
+                        n1 + 1,
+                        0,
+                        5,
+                        n1 * (n1 - 1) / 2 + 5,
+                    ),
+                    _ => (format!("let two{tag} = array.filled(8, {n2})\n"), n2, 8, 8, 8 * n2),
+                };
+                src.push_str(&build);
+                src.push_str(&format!("var sum{tag} = 0\nfor x in two{tag} {{\n    sum{tag} = sum{tag} + x\n}}\n"));
+                src.push_str(&format!(
+                    "obs({tag}, \"\" .. big{tag}.len() .. \":\" .. big{tag}[{}] .. \":\" .. two{tag}.len() .. \":\" .. two{tag}[0] .. \":\" .. two{tag}[two{tag}.len() - 1] .. \":\" .. sum{tag})\n",
+                    n1 - 1
+                ));
+                obs.push((tag, format!("{n1}:{}:{len2}:{first}:{last}:{sum}", n1 - 1)));
+                tag += 1;
+                descr.push(format!("big-growth({n1},{len2})"));
+            }
             19 if len < 50 => {
                 // grow across several capacity boundaries in one go
                 let n = rng.range(5, 20) as i64;
